@@ -1,5 +1,7 @@
 from __future__ import annotations
 
+from copy import deepcopy
+
 from collections import defaultdict
 from dataclasses import dataclass, field
 from functools import partial
@@ -831,6 +833,8 @@ class ProcessingPipeline:
         fds = d.get("finalizers", list())  # no default transformation
         fs: list[Finalizer] = list()
         for fd in fds:
+            if isinstance(fd, dict):
+                fd = deepcopy(fd)  # the definition given by the caller is not consumed
             fd.pop("allow_template_vars", None)  # Strip untrusted YAML value
             fd.pop("vars_allowed_paths", None)  # Strip untrusted YAML value
             fd.pop("allow_external_sources", None)  # Strip untrusted YAML value
